@@ -581,6 +581,11 @@ fn run_l2(
             files: vec![("x.sfs".into(), gen::hex(&produced))],
         }
     } else {
+        // the input is sometimes named on the command line although it is not a regular file
+        if rd_first % 3 == 0 {
+            cargs.push("/dev/stdin".into());
+            out.count("l2.consumer_reads_dev_stdin", 1);
+        }
         Child {
             args: cargs,
             env: vec![],
